@@ -125,9 +125,9 @@ impl TlsRecordsParser {
         }
         self.record_defrag_buffer.extend_from_slice(record.data);
 
-        // create a pseudo-header with correct length
+        // create a pseudo-header with correct length (the buffer can be larger than a u16: do not wrap)
         let header = TlsRecordHeader {
-            len: self.record_defrag_buffer.len() as u16,
+            len: self.record_defrag_buffer.len().min(u16::MAX as usize) as u16,
             ..record.hdr
         };
 
